@@ -68,13 +68,17 @@ func (dist *LaplaceDistribution) ScalarType() ScalarType {
 
 func (dist *LaplaceDistribution) LogPdf(r Scalar, x ConstScalar) error {
 
+  // log(2 sigma)
+  t := dist.c2.CloneScalar()
+  t.Mul(t, dist.Sigma)
+  t.Log(t)
+  // -|x-mu|/sigma - log(2 sigma)
   r.Sub(x, dist.Mu)
   r.Abs(r)
   r.Div(r, dist.Sigma)
   r.Neg(r)
-  r.Exp(r)
-  r.Div(r, dist.Sigma)
-  r.Div(r, dist.c2)
+  r.Sub(r, t)
+
 
   return nil
 }
